@@ -444,3 +444,24 @@ reg("C51", "exploration",
     "Either Euler convention for the integral term is accepted (only one is ever observed, counted); the first step is not slew-limited; "
     "runs stop at an engine auto-reset. No linked first-party plugin has nstate>0, so the plugin_state comparison is vacuous (said in evidence).",
     "reference-model oracle stepped alongside the real plugin + twin execution + sanitizer subsample")
+
+reg("C10", "exploration",
+    "Reference-model oracle: the documented reduced objective is rebuilt densely from efc_J/efc_aref/efc_R/M (row cost classes derived "
+    "from the documentation, never from the engine's cost code) and minimised by scipy from two starts; mj_forward runs at tolerance 0 "
+    "for Newton, CG and PGS x dense/sparse x islands on/off x warmstart {disabled, previous, garbage, optimum}; every run that carries a "
+    "convergence certificate computed from the engine's own outputs (1/2 g' M^-1 g below 1e-12 of the cost scale) is compared with the "
+    "reference optimum on qacc (M-norm), objective and forces within the strong-convexity bounds; islanded and monolithic solves are "
+    "compared pairwise; efc_force = -grad s and qfrc_constraint = J' f at the engine's qacc; truncated iteration budgets never end above "
+    "the better documented start.",
+    "noslip off (documented: no longer a single optimisation problem); flex excluded; non-converged runs are skipped and counted (CG 1%, "
+    "PGS 12%); PGS held to 1e-4. One open known finding (PGS with elliptic cones is bit-stationary at non-optimal points).",
+    "reference-model oracle with an engine-output convergence certificate over randomised solver configurations")
+
+reg("C12", "exploration",
+    "mj_constraintUpdate is run on real constraint rows with harness-chosen residuals (dense Gaussian at 5 scales, single-block support, "
+    "boundary-targeted points hit exactly and at +-1e-9, +-1e-14); the verdict uses engine outputs only: force = -grad cost by central "
+    "finite differences at two step sizes with stencils kept inside one zone, qfrc_constraint = J' force, midpoint/tangent convexity and "
+    "gradient monotonicity, force and cost continuity across every targeted zone boundary, contact.H = -d force / d jar in the middle zone.",
+    "An independent closed-form reference (self-tested against numerical projection and KKT) is used only to aim at boundaries and scale "
+    "tolerances; stencils crossing a zone boundary are skipped and counted.",
+    "metamorphic / finite-difference relations on the real function with analytic boundary targeting")
